@@ -1,5 +1,4 @@
 use model::data::{Component, U32, U16, Trame, to_vec, Message, DataType, DynOption, MessageOption, Check, Array};
-use model::unicode::Unicode;
 use model::error::{RdpResult, RdpError, RdpErrorKind, Error};
 use core::per;
 use std::io::{Cursor, Read};
@@ -209,11 +208,21 @@ pub fn client_core_data(parameter: Option<ClientData>) -> Component {
             name: "".to_string()
         });
 
-    let client_name = if client_parameter.name.len() >= 16 {
-        (&client_parameter.name[0..16]).to_string()
-    } else {
-        client_parameter.name.clone() + &"\x00".repeat(16 - client_parameter.name.len())
-    };
+    // clientName is a 32 bytes field : at most 15 UTF-16 code units
+    // followed by a null terminator
+    let mut client_name_units: Vec<u16> = client_parameter.name.encode_utf16().take(15).collect();
+    // never cut a surrogate pair in two
+    if let Some(last) = client_name_units.last() {
+        if *last >= 0xD800 && *last < 0xDC00 {
+            client_name_units.pop();
+        }
+    }
+    client_name_units.resize(16, 0);
+    let mut client_name = Vec::with_capacity(32);
+    for unit in client_name_units {
+        client_name.push(unit as u8);
+        client_name.push((unit >> 8) as u8);
+    }
 
     component![
         "version" => U32::LE(client_parameter.rdp_version as u32),
@@ -223,7 +232,7 @@ pub fn client_core_data(parameter: Option<ClientData>) -> Component {
         "sasSequence" => U16::LE(Sequence::RnsUdSasDel as u16),
         "kbdLayout" => U32::LE(client_parameter.layout as u32),
         "clientBuild" => U32::LE(3790),
-        "clientName" => client_name.to_string().to_unicode(),
+        "clientName" => client_name,
         "keyboardType" => U32::LE(KeyboardType::Ibm101102Keys as u32),
         "keyboardSubType" => U32::LE(0),
         "keyboardFnKeys" => U32::LE(12),
